@@ -266,7 +266,7 @@ def run(ctx):
             if wraps == 0:
                 ctx.mark(("full-range", mn, mx))
             oracle_range(ctx, mn, mx, None, None, True)
-            if w in (5, 10, 64):
+            if w in (5, 10) and mn != 0 and mn > -w:
                 ctx.sample({"range": [mn, mx], "nbits": nb, "encode(min..)": ["".join("1" if x else "0" for x in e) for e in encs[:6]],
                             "decode(all strings)": decs[:16]})
     dist["exhaustive_ranges"] = {"widths": "1..%d and 2^k,2^k+-1 for k<=%d" % (ctx.scale(64, 256), ctx.scale(10, 13)), "ranges": len(meta),
